@@ -824,6 +824,25 @@ def shard_worker(args):
     return {"st": st, "vs": vs, "sample": sample, "accepted": sorted(acc), "rejected": sorted(set(rej) - set(acc))}
 
 
+def standard_plan(name, quick, wide, data, ptr_widths, maxw, byte_orders, quick_d2_widths=(1, 2)):
+    """The common plan of C05/C06/C07a: (backend, big_endian, family, params, shards)."""
+    p = []
+    for w in SMALL:
+        p.append((name, False, "d1", (SMALL, w), 4))
+    if quick:
+        for w in quick_d2_widths:
+            p += [(name, False, "d2", (tuple(quick_d2_widths), w, "one", 2, "1c", k, 4), 1) for k in range(4)]
+    else:
+        for w in (1, 2, 3):
+            p += [(name, False, "d2", ((1, 2, 3), w, "core", 2, "3c", k, 32), 1) for k in range(32)]
+        p += [(name, False, "d2", (SMALL, 4, "core", 1, "3c", k, 32), 1) for k in range(32)]
+    for w in wide:
+        p.append((name, False, "wide", (w, maxw, not quick), 2 if quick else 8))
+    for be in byte_orders:
+        p.append((name, be, "mem", (tuple(ptr_widths), tuple(data)), 8 if quick else 16))
+    return p
+
+
 def run(ctx, make_backend, plan):
     """plan: list of (backend name, big_endian, family, params, nshards)."""
     shards = []
@@ -858,6 +877,7 @@ def run(ctx, make_backend, plan):
     cov["per_family_evaluations"] = per_family
     cov["node_kinds_accepted"] = sorted(accepted)
     cov["node_kinds_not_accepted"] = sorted(rejected)
+    cov["accepted_kinds_never_evaluated_at_root"] = sorted(k for k in accepted if not st["per_op_evals"].get(k))
     cov["violations_by_signature"] = cov.pop("sig_counts")
     cov["samples"] = samples
     cov["exhaustive"] = True
